@@ -8,7 +8,7 @@ use crate::report::{fnv, hex, Report};
 use serde_json::json;
 
 fn base(w: usize, h: usize) -> Config {
-    Config { w, h, layout: 1, depth: 12, float: 0, pattern: 0, tree: 0, leaf_variant: 0, wp: 0, transform: 0, coder: 0, lz77: 0, global_tree: true, group_shift: 1, passes: 0, toc_perm: 0, wide: false, ec_dim_shift: 0, force16: true }
+    Config { w, h, layout: 1, depth: 12, float: 0, pattern: 0, tree: 0, leaf_variant: 0, wp: 0, transform: 0, coder: 0, lz77: 0, global_tree: true, group_shift: 1, passes: 0, toc_perm: 0, wide: false, ec_dim_shift: 0, force16: true, lz77_copies: 0 }
 }
 
 pub fn run(c: &Config, seed: u64) -> Option<Result<(), (String, String)>> {
